@@ -5,8 +5,9 @@ package main
 // The REAL readers (utils.NewSignedChunkReader / utils.NewUnsignedChunkReader) are called in-process
 // behind a fragmenting io.Reader and read with a schedule of destination buffer sizes.  Every
 // observation is (a) compared with the Lean model run on the same stream / fragmentation / buffer
-// schedule (kind "correspondence") and (b) judged by the executable Spec oracle
-// Spec.Chunked.admitsB (kind "property").
+// schedule (kind "correspondence"), (b) judged by the executable Spec oracle Spec.Chunked.admitsB and
+// (c) compared with the one-shot read of the same stream (both kind "property").  c12E2E repeats the
+// property end to end against a gateway process.
 
 import (
 	"bytes"
@@ -43,8 +44,8 @@ var c12Caps = []int{1, 2, 3, 7, 16, 64, 4096, 32768}
 
 func init() {
 	checks["c12"] = checkDef{"C12",
-		"(variant, stream, fragmentation, buffer schedule): variants signed / signed-trailer / unsigned-trailer (trailer crc32 or sha256); streams = valid encodings of payloads ≤ 64 B in 1–4 chunks (incl. 1-byte chunks and the empty payload), every truncation of them, single-byte mutations (4 per byte), and grammar-level malformations (signs, white space, case, leading zeros, negative/huge sizes, trailing bytes, wrong trailer fields); fragmentations = whole / every single cut / all pairs (thorough) / random cut sets, io.EOF with the last bytes or separately; buffer sizes from {1,2,3,7,16,64,4096,32768}, constant or mixed. Non-trivial = the stream has at least one data chunk or is invalid, and (it is delivered in ≥ 2 reads or is invalid); distinct by (variant, stream, cuts, eof mode, buffer schedule).",
-		[]checkFn{c12Shims, c12Readers}}
+		"(variant, stream, fragmentation, buffer schedule): variants signed / signed-trailer / unsigned-trailer (trailer crc32 or sha256); streams = valid encodings of payloads ≤ 64 B in 1–4 chunks (incl. 1-byte chunks and the empty payload), every truncation of them, single-byte mutations (4 per byte), and grammar-level malformations (signs, white space, case, leading zeros, negative/huge sizes, trailing bytes, wrong trailer fields); fragmentations = whole / every single cut / all pairs (thorough) / random cut sets, io.EOF with the last bytes or separately; buffer sizes from {1,2,3,7,16,64,4096,32768}, constant or mixed. Non-trivial = the stream has at least one data chunk or is invalid, and (it is delivered in ≥ 2 reads or is invalid); distinct by (variant, stream, cuts, eof mode, buffer schedule). Every delivery is also compared with the one-shot read of the same stream (fragmentation independence, except for grey-zone streams). End to end: chunked uploads through a real gateway (bodies up to 1 MiB in many chunks; wire bodies cut at every framing CRLF ±1, at a stride and at the end, declared length matching the cut).",
+		[]checkFn{c12Shims, c12Readers, c12E2E}}
 }
 
 // ------------------------------------------------------------------ the fragmenting reader
@@ -371,11 +372,15 @@ type c12Job struct {
 	frags []c12Frag
 }
 
-func c12Signature(s c12Stream, f c12Frag, class, impl, panicText string, boundaries []int) string {
-	v := "signed"
+func c12Variant(s c12Stream) string {
 	if s.Variant == "unsigned-trailer" {
-		v = "unsigned"
+		return "unsigned"
 	}
+	return "signed"
+}
+
+func c12Signature(s c12Stream, f c12Frag, class, impl, panicText string, boundaries []int) string {
+	v := c12Variant(s)
 	accepted := strings.HasPrefix(impl, "ok ")
 	if impl == "panic" {
 		switch {
@@ -493,11 +498,28 @@ func c12RunJobs(a lib.Args, res *lib.Result, jobs []c12Job) error {
 		}
 		model[rf.job] = append(model[rf.job], ms...)
 	}
+	obsOf := func(impl string) string {
+		if strings.HasPrefix(impl, "ok ") {
+			return "ok:" + impl[3:]
+		} else if impl == "panic" || impl == "livelock" {
+			return "crashed"
+		}
+		return "rejected"
+	}
 	for i, j := range jobs {
 		s := j.s
 		hasData := len(s.Payload) > 0
+		// the one-shot read (whole stream in one delivery, io.EOF afterwards) is the reference of the
+		// fragmentation-independence check
+		oneShot, _, _ := c12Impl(s.Variant, s.Algo, s.Stream, c12Frag{nil, false, []int{len(s.Stream) + 1}})
 		for k, f := range j.frags {
 			o := impl[i][k]
+			if class[i] != "grey" && obsOf(o.impl) != obsOf(oneShot) {
+				res.Fail(lib.Failure{Kind: "property", Signature: c12Variant(s) + ":fragmentation-dependent:" + class[i],
+					What: fmt.Sprintf("the outcome depends on the fragmentation: one-shot read %s, this delivery %s", c12Short(oneShot), c12Short(o.impl)),
+					Input: map[string]interface{}{"variant": s.Variant, "algo": s.Algo, "kind": s.Kind, "note": s.Note, "stream": hex.EncodeToString(s.Stream),
+						"cuts": f.Cuts, "eof_with_last_bytes": f.EofWith, "caps": f.Caps, "delivery_boundaries": o.boundaries}, Impl: o.impl, Model: model[i][k]})
+			}
 			ob := "rejected"
 			if strings.HasPrefix(o.impl, "ok ") {
 				ob = "ok:" + o.impl[3:]
@@ -624,6 +646,7 @@ func c12Malformed(base c12Stream, r *lib.Rand) []c12Stream {
 		add("minus-sign", ins(0, "-"))
 		add("leading-zero", ins(0, "0"))
 		add("leading-zeros", ins(0, "0000000000000000000"))
+		add("leading-zeros-1100", ins(0, strings.Repeat("0", 1100)))
 		add("upper-case-size", rep(0, k, strings.ToUpper(string(s[:k]))))
 		add("space-before-size", ins(0, " "))
 		add("space-after-size", ins(k, " "))
@@ -677,7 +700,7 @@ func c12Malformed(base c12Stream, r *lib.Rand) []c12Stream {
 // ------------------------------------------------------------------ the check
 
 func c12Readers(a lib.Args, res *lib.Result) error {
-	r := lib.NewRand(a.Seed + 12)
+	r := lib.NewRandStream(a.Seed, 12)
 	if in := a.ReplayInput(); in != nil {
 		st, _ := hex.DecodeString(fmt.Sprint(in["stream"]))
 		s := c12Stream{Variant: fmt.Sprint(in["variant"]), Algo: fmt.Sprint(in["algo"]), Kind: fmt.Sprint(in["kind"]), Stream: st, Payload: []byte{0}, Note: "replay"}
@@ -860,13 +883,178 @@ func c12Corpus() []c12Job {
 	return jobs
 }
 
+// ------------------------------------------------------------------ end to end
+
+// c12DataBytesIn: how many payload bytes a (possibly truncated) aws-chunked wire body carries in
+// full or in part, walking the chunk framing (signed: "size;chunk-signature=…CRLF", unsigned: "size CRLF").
+func c12DataBytesIn(wire []byte) int64 {
+	var n int64
+	pos := 0
+	for pos < len(wire) {
+		eol := bytes.Index(wire[pos:], []byte("\r\n"))
+		if eol < 0 {
+			return n
+		}
+		line := string(wire[pos : pos+eol])
+		if i := strings.IndexByte(line, ';'); i >= 0 {
+			line = line[:i]
+		}
+		size, err := strconv.ParseInt(line, 16, 64)
+		if err != nil || size <= 0 {
+			return n
+		}
+		pos += eol + 2
+		have := int64(len(wire) - pos)
+		if have <= size {
+			if have > 0 {
+				n += have
+			}
+			return n
+		}
+		n += size
+		pos += int(size) + 2
+	}
+	return n
+}
+
+// c12E2E: chunked uploads through a real gateway process.  Valid uploads (bodies up to several
+// hundred KB in many chunks, so that fasthttp's own reads cut chunk headers at arbitrary places)
+// must be stored byte-identically; an upload whose wire body is cut short — with the declared decoded
+// length set to what the cut body carries, so that only the chunk reader can notice — must be
+// refused and must not create the object.
+func c12E2E(a lib.Args, res *lib.Result) error {
+	if a.ReplayInput() != nil {
+		return nil
+	}
+	cfg, err := mustStorage(a, "c12", false, false, nil)
+	if err != nil {
+		return err
+	}
+	g, err := gw.Start(cfg)
+	if err != nil {
+		return err
+	}
+	defer g.Kill()
+	cr := rootCreds(cfg)
+	r := lib.NewRandStream(a.Seed, 1212)
+	if rsp := gw.Do(g.Addr(), gw.Req{Method: "PUT", Path: "/c12", Auth: "header", Creds: cr}); rsp.Status != 200 {
+		return fmt.Errorf("create bucket: %d %s %v", rsp.Status, rsp.Body, rsp.Err)
+	}
+	modes := []string{"stream-signed", "stream-signed-trailer", "stream-unsigned-trailer"}
+	sizes := []int{0, 1, 17, 4096, 5000, 70000, 300000}
+	rounds := 1
+	if a.Thorough() {
+		sizes = append(sizes, 1<<20)
+		rounds = 6
+	}
+	chunkings := func(n int) [][]int {
+		rnd := []int{}
+		for left := n; left > 0; {
+			c := 1 + r.Intn(8192)
+			rnd = append(rnd, c)
+			left -= c
+		}
+		return [][]int{{n}, c12Repeat(1000, n/1000+1), c12Repeat(4096-87, n/4009+1), rnd}
+	}
+	key := 0
+	for round := 0; round < rounds; round++ {
+		for _, mode := range modes {
+			for _, n := range sizes {
+				body := r.Bytes(n)
+				for _, ch := range chunkings(n) {
+					key++
+					path := fmt.Sprintf("/c12/v%d", key)
+					algo := pick(r, "crc32", "sha256", "crc32c", "sha1", "crc64nvme")
+					put := gw.Do(g.Addr(), gw.Req{Method: "PUT", Path: path, Body: body, Auth: mode, Creds: cr, Chunks: ch, Trailer: algo})
+					get := gw.Do(g.Addr(), gw.Req{Method: "GET", Path: path, Auth: "header", Creds: cr})
+					res.Count(fmt.Sprintf("e2e|%s|%d|%v|%s", mode, n, ch, algo), n > 0, "e2e:valid:"+mode)
+					in := map[string]interface{}{"e2e": true, "mode": mode, "size": n, "chunks": c12Short(fmt.Sprint(ch)), "trailer": algo}
+					if put.Status != 200 {
+						res.Fail(lib.Failure{Kind: "property", Signature: "e2e:" + mode + ":valid-upload-refused",
+							What: fmt.Sprintf("valid chunked upload answered %d %s", put.Status, put.ErrCode()), Input: in, Impl: fmt.Sprint(put.Status)})
+					} else if get.Status != 200 || !bytes.Equal(get.Body, body) {
+						res.Fail(lib.Failure{Kind: "property", Signature: "e2e:" + mode + ":readback-differs",
+							What: fmt.Sprintf("object stored by a valid chunked upload reads back differently (GET %d, %d bytes for %d)", get.Status, len(get.Body), n), Input: in, Impl: fmt.Sprint(get.Status)})
+					}
+				}
+			}
+		}
+	}
+	// truncated wire bodies
+	body := r.Bytes(5000)
+	step := 53
+	if a.Thorough() {
+		step = 7
+	}
+	for _, mode := range modes {
+		// learn the wire body
+		var wire []byte
+		gw.Do(g.Addr(), gw.Req{Method: "PUT", Path: "/c12/probe", Body: body, Auth: mode, Creds: cr, Chunks: c12Repeat(700, 8), Trailer: "crc32",
+			WireMut: func(w []byte) []byte { wire = append([]byte{}, w...); return w }})
+		wlen := len(wire)
+		seen := map[int]bool{}
+		var cutsAt []int
+		addCut := func(c int) {
+			if c >= 0 && c < wlen && !seen[c] {
+				seen[c] = true
+				cutsAt = append(cutsAt, c)
+			}
+		}
+		for c := 0; c < wlen; c += step {
+			addCut(c)
+		}
+		for i := 0; i+1 < wlen; i++ { // around every CRLF of the framing (and of the data)
+			if wire[i] == '\r' && wire[i+1] == '\n' {
+				addCut(i)
+				addCut(i + 1)
+				addCut(i + 2)
+				addCut(i + 3)
+			}
+		}
+		for c := wlen - 6; c < wlen; c++ {
+			addCut(c)
+		}
+		for _, c := range cutsAt {
+			key++
+			path := fmt.Sprintf("/c12/t%d", key)
+			cut := c
+			var decl int64
+			req := gw.Req{Method: "PUT", Path: path, Body: body, Auth: mode, Creds: cr, Chunks: c12Repeat(700, 8), Trailer: "crc32"}
+			// two passes: the first learns how many payload bytes the cut body carries
+			req.WireMut = func(w []byte) []byte { decl = c12DataBytesIn(w[:cut]); return w[:cut] }
+			probe := req
+			probe.Path = "/c12/probe2"
+			gw.Do(g.Addr(), probe)
+			d := decl
+			req.DeclLen = &d
+			put := gw.Do(g.Addr(), req)
+			get := gw.Do(g.Addr(), gw.Req{Method: "GET", Path: path, Auth: "header", Creds: cr})
+			res.Count(fmt.Sprintf("e2e-trunc|%s|%d", mode, cut), true, "e2e:truncated:"+mode)
+			if put.Status < 400 && put.Err == nil || get.Status == 200 {
+				res.Fail(lib.Failure{Kind: "property", Signature: "e2e:" + mode + ":truncated-upload-accepted",
+					What: fmt.Sprintf("chunked upload cut after %d of %d wire bytes (declared decoded length %d) answered %d; GET afterwards %d with %d bytes", cut, wlen, d, put.Status, get.Status, len(get.Body)),
+					Input: map[string]interface{}{"e2e": true, "mode": mode, "cut": cut, "wire_len": wlen, "declared": d}, Impl: fmt.Sprint(put.Status)})
+			}
+		}
+	}
+	return nil
+}
+
+func c12Repeat(x, n int) []int {
+	out := make([]int, n)
+	for i := range out {
+		out[i] = x
+	}
+	return out
+}
+
 // ------------------------------------------------------------------ differential tests of the Lean shims / hash instances / encoder
 
 func c12Shims(a lib.Args, res *lib.Result) error {
 	if a.ReplayInput() != nil {
 		return nil
 	}
-	r := lib.NewRand(a.Seed + 1200)
+	r := lib.NewRandStream(a.Seed, 1200)
 	n := 300
 	if a.Thorough() {
 		n = 5000
